@@ -7,6 +7,8 @@ ASSUMPTIONS = [
     "products of after-targets count as tracked (pytask records them as neighbours); NaN-like hashed values are not generated",
     "Lean side (Properties/C03.lean): state = content id (time stamps are not part of the model: the (path, mtime) memo, finding F4, is C12's subject); "
     "WF P (unique task ids, a task lists a product once, module files are not products) is a hypothesis of C03_repeat",
+    "generated projects also contain symlinked inputs, DirectoryNode products next to file products and a constant hashed PythonNode dependency "
+    "(tuple with str and Path); successive builds of one history run in fresh processes under different PYTHONHASHSEEDs",
 ]
 EDITS = ["touch", "touch", "rewrite_same", "rewrite_same", "write", "revert", "bump", "revert_module", "tamper", "delete_product", "add_task"]
 CFGS = [{}, {}, {}, {"k": "task_t00x"}, {"k": "task_t01x or task_t02x"}, {"dry": True}, {"force": True}]
